@@ -326,6 +326,7 @@ fn emit_program(w: &mut CaseWriter, name: &str, m: Module, extra_budgets: &[u64]
                 if need > 1 { budgets.push(need - 1); }
                 budgets.push(need);
                 budgets.push(need + 1);
+                budgets.push(2 * need);
                 if need > 4 { budgets.push(1 + rng.below(need - 1)); }
             }
             None => {
@@ -334,6 +335,9 @@ fn emit_program(w: &mut CaseWriter, name: &str, m: Module, extra_budgets: &[u64]
             }
         }
         budgets.push(1);
+        budgets.push(2);
+        budgets.push(3);
+        budgets.push(10_000);
         if rng.chance(1, 6) { budgets.push(0); w.count("budget.zero"); }
         budgets.extend_from_slice(extra_budgets);
         for b in budgets {
@@ -361,7 +365,8 @@ fn emit_program(w: &mut CaseWriter, name: &str, m: Module, extra_budgets: &[u64]
 
 pub fn gen(a: &Args) {
     let mut rng = Rng::new(a.seed);
-    let mut w = CaseWriter::new(&a.out, "VmCheck", 8);
+    let module = if a.prop == "C03" { "C03Check" } else { "VmCheck" };
+    let mut w = CaseWriter::new(&a.out, module, 8);
     w.push(opcode_table_case(), false);
     for e in vmgen::corpus() {
         w.count(&format!("corpus.{}", e.name));
